@@ -7,7 +7,7 @@ import itertools
 from ..mon import Reach
 from ..ref_sem import Lang
 from ..result import Budget, digest
-from ..shadow import Lockstep, Divergence, gen_history
+from ..shadow import big_link_prefix, Lockstep, Divergence, gen_history
 from ..stream import corelang_spec
 from ..gen_lang import gen_language, Cfg
 
@@ -25,7 +25,7 @@ META = {
                     'linking removed/foreign assets and clashing attacker ids are outside the property and not generated'],
     'shards': {'quick': 8, 'thorough': 16},
     'quotas': {
-        'quick': {'steps-compared': 10000, 'op:add_asset:ok': 3000, 'op:remove_asset:ok': 1000, 'op:add_association:ok': 600,
+        'quick': {'class:duplicate-attempt-with-more-than-32-pairs': 10, 'class:link-with-more-than-32-pairs': 3, 'steps-compared': 10000, 'op:add_asset:ok': 3000, 'op:remove_asset:ok': 1000, 'op:add_association:ok': 600,
                   'op:remove_association:ok': 100, 'op:remove_asset_from_association:ok': 60, 'op:add_attacker:ok': 200,
                   'op:remove_attacker:ok': 50, 'op:add_entry_point': 100, 'op:remove_entry_point': 20,
                   'op:add_asset-dup-id:raised': 50, 'op:add_asset-dup-name:raised': 50, 'op:add_association-dup-link:raised': 20,
@@ -191,6 +191,10 @@ def run(rng, res, tier, shard, nshards):
         lg2, fac2 = cache[name + '/lg']
         lang = Lang(spec)
         hist = gen_history(rng, lang, rng.randint(1, 60) if rng.random() < 0.96 else rng.randint(150, 300), invalid=0.2)
+        if rng.random() < 0.08:
+            pre = big_link_prefix(rng, lang)
+            if pre:
+                hist = pre + hist
         first = run_history(spec, hist, res, lang_graph=lg2, factory=fac2)
         res.case(digest([name, hist]) if nontrivial(hist) else None)
         if len(res.samples) < 3 and nontrivial(hist):
